@@ -105,8 +105,21 @@ Theorem C08_registry_by_class_is_identity : forall reg adds, resolve_adds true r
 Proof. exact resolve_by_class. Qed.
 Print Assumptions C08_registry_by_class_is_identity.
 
+(* /repo 0277e53: did the help-only --config_path action keep the default of the call that ADDED it (the state after fix
+   492a48c), the `config_path` attribute of a later result would be the first call's:
+   [Construct 0 (config-path argument); AddArgs 0 {my_x}; Parse 0 --config_path c1.json --my_x 3; Parse 0 --my_x 3]
+   -> config_path=[c1.json], fresh: None *)
+Theorem C08_history_refuted_config_path_attr : cfgarg_refreshed facts_gen = false -> ~ history_full facts_gen FILES.
+Proof. exact (refuted_cfgattr facts_gen). Qed.
+Print Assumptions C08_history_refuted_config_path_attr.
+(* As the code stands (refreshed on every call) that attribute is a function of THIS call's argv alone *)
+Theorem C08_config_path_attr_of_this_call : forall f p argv,
+  cfgarg_refreshed f = true -> cfg_default f p argv = cfg_attr argv.
+Proof. exact cfg_attr_of_this_call. Qed.
+Print Assumptions C08_config_path_attr_of_this_call.
+
 (* What IS true, for histories of any length over any number of parsers: under `benign` - a decidable predicate
-   whose clauses (b_spelling, b_registry, b_cfgarg, b_tuple, b_frozen, b_defaults in Model/History.v) name exactly the
+   whose clauses (b_spelling, b_registry, b_cfgarg, b_cfgattr, b_tuple, b_frozen, b_defaults in Model/History.v) name exactly the
    situations above, each guarded by its switch - every parse answers what a fresh interpreter answers.
    Proved by induction over the operation list; holds for every setting of the switches. *)
 Theorem C08_history_partial : forall f files ops k i argv d,
@@ -154,7 +167,8 @@ Example C08_nonvacuous :
   benign_gen FILES ops = true
   /\ nth_error (obs_from facts_gen FILES init ops) 6
      = Some (OParse (Ok [("a.my_x", "int:7"); ("a.model", "dc:MB"); ("a.model.size_b", "int:9");
-                         ("b.other_y", "int:2"); ("subgroups:a.model", "str:mb")]))
+                         ("b.other_y", "int:2"); ("subgroups:a.model", "str:mb");
+                         ("+config_path", "list(path:c1.json)")]))
   /\ nth_error (obs_from facts_gen FILES init ops) 10
      = Some (OParse (Ok [("a.my_x", "int:1"); ("a.pair", "tuple(int:3,str:x)")]))
   /\ nth_error (obs_from facts_gen FILES init ops) 12
